@@ -126,6 +126,14 @@ class Check(PropertyCheck):
             elif r < 0.13:
                 lines += ["reset", "wsnap"]
                 tr.reset()
+                if rng.random() < 0.4:
+                    # one reward observer is retired and a new one (built the ordinary way) takes its place on the reset dispatcher:
+                    # the same number of subscribers as before, other individuals
+                    victim = rng.randrange(len(kinds))
+                    if kinds[victim] in ("makespan_reward", "idle_reward"):
+                        lines += [f"unsub {victim}", "obs " + kinds[victim], "wsnap"]
+                        kinds.append(kinds[victim])
+                        kinds[victim] = "retired"
             j, p, m = gen.gen_valid_request(rng, tr)
             tr.take(j)
             n_acc += 1
@@ -191,6 +199,8 @@ class Check(PropertyCheck):
         for i, kind in enumerate(impl.kinds):
             if kind not in ("makespan_reward", "idle_reward"):
                 continue
+            if i < len(getattr(impl, "sub_state", [])) and not impl.sub_state[i]:
+                continue            # retired (unsubscribed) observers are not notified any more: nothing to add up
             o = impl.heap[i]
             if len(o.rewards) != ctx["n"]:
                 res.append(("count", f"{kind}: {len(o.rewards)} rewards after {ctx['n']} accepted dispatches (`{line}`)"))
